@@ -262,6 +262,9 @@ for _cls in _classes():
 for _op in ("__getitem__", "__setitem__", "__delitem__", "update", "pop", "popitem"):
     UNITS.append(SMChartGuard(_op))
 UNITS.append(SMChartEq())
+# "serialization sees exactly the mapping's content": the serializers of the four classes (shared with C01 / C02 / C04)
+from props.ser_common import SMChartSerialize, SSCChartSerialize, SimfileSerialize   # noqa: E402
+UNITS += [SMChartSerialize(), SSCChartSerialize(), SimfileSerialize("sm"), SimfileSerialize("ssc")]
 
 
 # ---------------------------------------------------------------------------
@@ -301,6 +304,20 @@ def witness_search(tier, seed):
             for op in hist:
                 trace.append(op[:2] + (op[4],))
                 bad = _step(obj, model, op, kind, six, decls)
+                if not bad:
+                    try:
+                        text = str(obj)
+                        if kind == "SMChart":
+                            want = ":".join(["#NOTES"] + [("\n     " if i < 5 else "\n") + obj[f] for i, f in enumerate(sm.SM_CHART_PROPERTIES)])
+                            if "".join(text.split()) != "".join((want + "\n;").split()):
+                                bad = f"str(chart) = {text!r} does not hold the six fields in the documented order"
+                        else:
+                            missing = [k for k, v in obj.items() if isinstance(v, str) and (f"#{k}:{v}").replace("\n", "") not in text.replace("\n", "")]
+                            if missing:
+                                bad = f"key(s) {missing} of the mapping are missing from the serialized text"
+                    except Exception as e:
+                        unsaveable = any(not isinstance(v, str) for v in obj.values()) or (kind == "SSCChart" and "NOTES" not in obj and "NOTES2" not in obj)
+                        bad = None if unsaveable else f"str() raised {type(e).__name__}: {e}"     # a chart without note data cannot be written (C06)
                 if bad:
                     return dict(kind=kind, history=trace, detail=bad)
     return None
